@@ -95,6 +95,18 @@ Proof.
 Qed.
 Print Assumptions C09_count_is_max.
 
+(** more precisely it is the reply of the lowest-numbered child among those
+    with the maximal count (what slices.MaxFunc returns) *)
+Theorem C09_count_is_first_max : forall n pre sub w1 x w2 r,
+  (2 <= n)%nat -> trace_ok n (pre ++ CCount sub :: w1 ++ x :: w2) -> no_ccount sub (w1 ++ x :: w2) ->
+  nth_error (cnt_outs (final (init n) pre) sub (w1 ++ x :: w2)) (length w1) = Some (Some (SCount r)) ->
+  c_sub r = sub ->
+  exists before after,
+    cnt_replies n sub (w1 ++ [x]) = List.map Some (before ++ r :: after) /\
+    forall b, In b before -> c_count b < c_count r.
+Proof. exact count_is_first_max_reach. Qed.
+Print Assumptions C09_count_is_first_max.
+
 (** Whole histories.  If, after the history [t], no EVENT with id [id] is in
     flight — every submission was answered by every child before the next
     one with that id came ([idle_ev], the guard along the whole history) —
